@@ -921,7 +921,12 @@ func propC08(c *Ctx) {
 	preUnit := []string{"", " ", "_", szNBSP, "  ", "_ ", " _ ", szNBSP + " "}
 	fewUnits := []string{"", "B", "KiB", "kB", "EiB", "ZB", "kb"}
 	k := 0
-	for _, ds := range []string{"7", "10", "42", "007", "1000", "1024", "9999"} {
+	gapDigits := []string{"7", "10", "42", "007", "1000", "1024", "9999"}
+	if c.Thorough {
+		gapDigits = append(gapDigits, "65536", "00000", "18446", "123456")
+		fewUnits = append(append([]string{}, szUnits18...), "kb", "K iB")
+	}
+	for _, ds := range gapDigits {
 		szGaps(ds, gapSeps, func(body string) {
 			for _, ps := range preUnit {
 				for _, u := range fewUnits {
